@@ -213,6 +213,9 @@ func ghostLeaf(owner, name, kind string) leaf {
 	if kind == "u" {
 		return leaf{Owner: owner, Field: name, Typ: types.NewInterfaceType(nil, nil), K: VU}
 	}
+	if kind == "str" {
+		return leaf{Owner: owner, Field: name, Typ: types.Typ[types.String], K: VStr}
+	}
 	return leaf{Owner: owner, Field: name, Typ: types.Typ[types.Int], K: VInt}
 }
 
